@@ -2014,17 +2014,19 @@ class QuicConnection:
             for cid in self._peer_cid_available
             if cid.sequence_number >= self._peer_retire_prior_to
         ]
-        if (
-            sequence_number >= self._peer_retire_prior_to
-            and sequence_number not in self._peer_cid_sequence_numbers
-        ):
-            self._peer_cid_available.append(
-                QuicConnectionId(
-                    cid=connection_id,
-                    sequence_number=sequence_number,
-                    stateless_reset_token=stateless_reset_token,
-                )
+        if sequence_number not in self._peer_cid_sequence_numbers:
+            new_cid = QuicConnectionId(
+                cid=connection_id,
+                sequence_number=sequence_number,
+                stateless_reset_token=stateless_reset_token,
             )
+            if sequence_number >= self._peer_retire_prior_to:
+                self._peer_cid_available.append(new_cid)
+            else:
+                # The frame was overtaken by one which asked us to retire this
+                # connection ID: we will never use it, but the peer still needs
+                # to be told that it is gone (RFC 9000 section 19.15).
+                retire.append(new_cid)
             self._peer_cid_sequence_numbers.add(sequence_number)
 
         # retire previous CIDs
